@@ -504,7 +504,87 @@ func c12SchedScenarios(tier string) []txScen {
 	return s
 }
 
+// ---------------------------------------------------------------------------
+// C02 / C17: a subscription is re-configured while a Pull on it is waiting
+
+// liveOn counts the not-completed delivery rows per (live) subscription name.
+func liveOn(w *world.World) (map[string]int, error) {
+	rows, err := w.DB.Query("SELECT s.name, COUNT(*) FROM deliveries d JOIN subscriptions s ON s.id = d.subscription_id WHERE d.completed_at IS NULL AND s.deleted_at IS NULL GROUP BY s.name")
+	if err != nil {
+		return nil, err
+	}
+	defer rows.Close()
+	out := map[string]int{}
+	for rows.Next() {
+		var n string
+		var c int
+		if err := rows.Scan(&n, &c); err != nil {
+			return nil, err
+		}
+		out[n] = c
+	}
+	return out, rows.Err()
+}
+
+func c02SchedScenarios(tier string) []txScen {
+	cfg := model.Cfg{Topics: []string{"T0", "TD", "TE"}, Subs: []model.SubCfg{
+		{Name: "S0", Topic: "T0", DLTopic: "TD", MaxAttempts: 1},
+		{Name: "SD", Topic: "TD"},
+		{Name: "SE", Topic: "TE"},
+	}}
+	// one message, delivered once (its only permitted attempt), lease running
+	prelude := []model.Op{pub1("T0", "", 0), pull("S0", 10)}
+	want := func(exp map[string]int, waiterGets int) func(map[string]bool, map[string][]model.Obs, *world.World) string {
+		return func(done map[string]bool, obs map[string][]model.Obs, w *world.World) string {
+			for th, os := range obs {
+				for _, o := range os {
+					if o.Err != "" {
+						return fmt.Sprintf("VIOLATION thread %s: operation failed: %s", th, o.Err)
+					}
+				}
+			}
+			got, err := liveOn(w)
+			if err != nil {
+				return "harness: " + err.Error()
+			}
+			for _, n := range []string{"S0", "SD", "SE"} {
+				if got[model.SubPath(n)] != exp[n] {
+					return fmt.Sprintf("VIOLATION after the policy change committed and the message then became due: %d outstanding deliveries on %s, the subscription's CURRENT configuration demands %d (S0=%d SD=%d SE=%d)", got[model.SubPath(n)], n, exp[n], got[model.SubPath("S0")], got[model.SubPath("SD")], got[model.SubPath("SE")])
+				}
+			}
+			n := 0
+			for _, o := range obs["W"] {
+				n += len(o.Msgs)
+			}
+			if n != waiterGets {
+				return fmt.Sprintf("VIOLATION the waiting Pull returned %d messages, want %d under the subscription's current configuration", n, waiterGets)
+			}
+			return "ok"
+		}
+	}
+	s := []txScen{
+		{name: "C02/dead-letter policy re-targeted while a Pull waits", cfg: cfg, prelude: prelude,
+			threads: []txThread{{"W", []model.Op{pullWait("S0")}}, {"U", []model.Op{reconfig("S0", "dl:TE"), modack("S0", "all", 0)}}},
+			oracle:  want(map[string]int{"S0": 0, "SD": 0, "SE": 1}, 0), late: true, bound: -1},
+		{name: "C02/dead-letter policy removed while a Pull waits", cfg: cfg, prelude: prelude,
+			threads: []txThread{{"W", []model.Op{pullWait("S0")}}, {"U", []model.Op{reconfig("S0", "dl:none"), modack("S0", "all", 0)}}},
+			oracle:  want(map[string]int{"S0": 1, "SD": 0, "SE": 0}, 1), late: true, bound: -1},
+	}
+	for i := range s {
+		s[i].prop = "C02"
+	}
+	return s
+}
+
 func init() {
+	extraAfterHist["C02"] = func(t *testing.T, tier string) (map[string]any, []report.Viol, error) {
+		res, err := runTxScenarios(t, c02SchedScenarios(tier), report.RealNow().Add(schedBudget(tier)))
+		if err != nil {
+			return nil, nil, err
+		}
+		cov, v := txCoverage("C02", res)
+		return cov, v, nil
+	}
 	extraAfterHist["C04"] = func(t *testing.T, tier string) (map[string]any, []report.Viol, error) {
 		res, err := runTxScenarios(t, c04SchedScenarios(tier), report.RealNow().Add(schedBudget(tier)))
 		if err != nil {
